@@ -45,4 +45,12 @@ M = [
  ("c18-leap-19", ["C18"], R+"decode/time.rs", "static LEAP_SECONDS_SINCE_2017: u64 = 18;", "static LEAP_SECONDS_SINCE_2017: u64 = 19;"),
  ("c18-no-week", ["C18"], R+"decode/time.rs", "* ((now_s - GPS_TO_UNIX_OFFSET + LEAP_SECONDS_SINCE_2017) / 86_400 / 7)", "* ((now_s - GPS_TO_UNIX_OFFSET) / 86_400 / 7)"),
  ("c18-underflow-again", ["C18"], R+"decode/time.rs", "    (gps_ns % DAY_NS + DAY_NS - LEAP_SECONDS_SINCE_2017 * 1_000_000_000)\n        % DAY_NS", "    (gps_ns - LEAP_SECONDS_SINCE_2017 * 1_000_000_000) % DAY_NS"),
+ # ---- C06 through the Python binding, the moving reference and interleaved non-position messages
+ ("c06-py-ref-swap", ["C06"], "python/src/lib.rs", "    let position = reference.map(|[latitude, longitude]| Position {\n        latitude,\n        longitude,\n    });\n    decode_positions(&mut res, position, &None);", "    let position = reference.map(|[longitude, latitude]| Position {\n        latitude,\n        longitude,\n    });\n    decode_positions(&mut res, position, &None);"),
+ ("c06-py-sorted", ["C06"], "python/src/lib.rs", "    decode_positions(&mut res, position, &None);", "    res.sort_by(|a, b| a.frame.cmp(&b.frame));\n    decode_positions(&mut res, position, &None);"),
+ ("c06-update-ref-lat-only", ["C06"], R+"decode/cpr.rs", "                        *reference = Some(Position {\n                            latitude: pos.latitude,\n                            longitude: pos.longitude,\n                        })", "                        *reference = Some(Position {\n                            latitude: pos.latitude,\n                            longitude: pos.latitude,\n                        })"),
+ ("c06-update-ref-stale", ["C06"], R+"decode/cpr.rs", "                    if update_reference(airborne) {\n                        *reference = Some(Position {", "                    if update_reference(airborne) || reference.is_none() {\n                        *reference = Some(Position {"),
+ ("c06-cli-update-always", ["C06"], "crates/decode1090/src/main.rs", "pos.alt.is_some_and(|alt| alt < 1000)", "pos.alt.is_none_or(|alt| alt < 1000)"),
+ ("c06-filler-refreshes", ["C06"], R+"decode/cpr.rs", "        _ => (),\n    }\n}\n\n/**\n * This function is only used", "        _ => latest.timestamp = timestamp,\n    }\n}\n\n/**\n * This function is only used"),
+ ("c06-gnss-skipped-pairing", ["C06"], R+"decode/cpr.rs", "            if (timestamp - latest_timestamp) < 10. {", "            if (timestamp - latest_timestamp) < 10. || airborne.alt.is_none() {"),
 ]
